@@ -35,6 +35,11 @@ structure Slot where
 structure St where
   slots : Array Slot := #[]
   sel : Option Nat := none
+  /-- C++ `mpt::source<int>`: the data, the step and the position (an `Int`: it leaves the array on either side) -/
+  xsData : List Int := []
+  xsStep : Int := 1
+  xsPos : Int := 0
+  xsOn : Bool := false
 
 instance : Inhabited St := ⟨{}⟩
 
@@ -392,7 +397,36 @@ def msgSlot (s : St) (h1 h2 : String) : St × String :=
     addSlot s (some sl) true s!"ok slot={s.slots.size} ; *"
   | _, _ => (s, "bad-op")
 
+/-- `mpt::source<T>` (mptcore/types.h): a position inside the array is an element; outside (on either side) there
+    is none: `value()` is NULL, `advance()` reports MissingData; a step that leaves the array reports the end -/
+def xsStepOp (s : St) (w : List String) : St × String :=
+  let inside (p : Int) : Bool := 0 ≤ p && p < (s.xsData.length : Int)
+  match w with
+  | ["xs", "new", st, items] =>
+    match st.toInt?, (items.splitOn ",").mapM String.toInt? with
+    | some k, some vs =>
+      if k = 0 ∨ k < -8 ∨ k > 8 ∨ vs.isEmpty ∨ vs.length > 64 ∨ vs.any (fun v => v < -1000 ∨ v > 1000) then (s, "bad-op")
+      else ({ s with xsData := vs, xsStep := k, xsPos := if k < 0 then (vs.length : Int) - 1 else 0, xsOn := true }, "R ok | C - | I -")
+    | _, _ => (s, "bad-op")
+  | ["xs", "value"] =>
+    if !s.xsOn then (s, "bad-op")
+    else if inside s.xsPos then
+      let v := s.xsData.getD s.xsPos.toNat 0
+      (s, s!"R val {v} | C - | I - | S val {v} ; *")
+    else (s, "R null | C - | I - | S null ; *")
+  | ["xs", "advance"] =>
+    if !s.xsOn then (s, "bad-op")
+    else if !inside s.xsPos then (s, "R err | C - | I ret=MissingData | S err ; *")
+    else
+      let p := s.xsPos + s.xsStep
+      ({ s with xsPos := p }, (if inside p then "R more" else "R end") ++ " | C - | I - | S " ++ (if inside p then "more ; *" else "end ; *"))
+  | ["xs", "reset"] =>
+    if !s.xsOn then (s, "bad-op")
+    else ({ s with xsPos := if s.xsStep < 0 then (s.xsData.length : Int) - 1 else 0 }, s!"R ok | C - | I ret={s.xsData.length} | S ok ; *")
+  | _ => (s, "bad-op")
+
 def step (s : St) (w : List String) : St × String :=
+  if w.head? = some "xs" then xsStepOp s w else
   match w with
   | ["it", "begin"] => ({}, "R ok | C - | I -")
   | ["it", "create", h] =>
@@ -630,6 +664,23 @@ def step (s : St) (w : List String) : St × String :=
                 else s!"keys={show_ (ws.take cap)} n={cap} stop=cap ; *"
               | none => "* ; *"
             (setSlot s k { sl with src := .str it1, sync := false }, s!"R {r} | C - | I - | S {alts}")
+          | _ => (s, "bad-op")
+    else if kind = "cmpclone" then
+      match Dyadic.parseNat h with
+      | none => (s, "bad-op")
+      | some cap =>
+        if cap > 4096 then (s, "bad-op") else
+        withSel s fun k sl =>
+          match sl.src with
+          | .gen g =>
+            match g.clone with
+            | none => (s, "R refused | C - | I - | S refused ; * || same n=* stop=* ; *")
+            | some _ =>
+              -- a clone replays the identical sequence: walking both side by side never shows a difference
+              let (vs, stop, g1) := walkM cap g []
+              let (_, _, c1) := walkS cap sl.cur []
+              let r := s!"same n={vs.length} stop={stop}"
+              (setSlot s k { sl with src := .gen g1, cur := c1 }, s!"R {r} | C - | I - | S {r} ; *")
           | _ => (s, "bad-op")
     else if kind = "walk" ∨ kind = "swalk" then
       match Dyadic.parseNat h with
